@@ -1375,10 +1375,11 @@ def check_fold(run, S, name, init_exp, step, rule='K7 fold pattern', what='sum',
         r, leaf = _leaf
     where = r.get('span')
     key = '%s:%s' % (run.prop, name)
-    folds = [e for e in leaf['trace'] if e['fn'] == 'core::iter::traits::iterator::Iterator::fold']
+    FOLDS = ('core::iter::traits::iterator::Iterator::fold', 'core::iter::traits::iterator::Iterator::try_fold')
+    folds = [e for e in leaf['trace'] if e['fn'] in FOLDS]
     cv = Conv(S)
     # adaptors in front of the fold must be transparent: cloned / copied, or map with a closure returning its item (`|q| *q`)
-    adaptors = [e for e in leaf['trace'] if e['fn'] != 'core::iter::traits::iterator::Iterator::fold' and e['ret'] not in _ignore]
+    adaptors = [e for e in leaf['trace'] if e['fn'] not in FOLDS and e['ret'] not in _ignore]
     transparent = {}
     for e_ in adaptors:
         short = e_['fn'].rsplit('::', 1)[-1]
@@ -1399,6 +1400,8 @@ def check_fold(run, S, name, init_exp, step, rule='K7 fold pattern', what='sum',
     e = folds[0]
     itv = e['args'][0]
     iv_ = itv
+    while isinstance(iv_, dict) and 'r' in iv_ and isinstance(iv_['r'].get('val'), dict):
+        iv_ = iv_['r']['val']          # `(&mut iter).try_fold(..)`: the iterator behind the mutable borrow
     while isinstance(iv_, dict) and 'a' in iv_ and iv_['a'] and transparent:
         iv_ = iv_['a'][0]      # an adaptor struct shaped as (inner iterator, closure)
     tid = iv_.get('t') if isinstance(iv_, dict) else None
@@ -1422,7 +1425,15 @@ def check_fold(run, S, name, init_exp, step, rule='K7 fold pattern', what='sum',
     if not run.ob(key + ':callable', 'out' in lam and lam['out']['k'] == 'ret', rule=rule, expected='the folding callable summarises to one Return', found=str(lam)[:300], where=where):
         return False
     n = len(init_exp) if _n is None else _n
-    res = flat(cv.val(lam['out']['v']))
+    lam_v = lam['out']['v']
+    is_try = e['fn'].endswith('try_fold')
+    if is_try:
+        # `try_fold(init, |acc, x| Ok(step))` that never breaks is the fold with that step; the result is unwrapped below
+        wrap_ok = isinstance(lam_v, dict) and lam_v.get('n') in ('Ok', 'Some', 'Continue') and len(lam_v.get('f', [])) == 1
+        if not run.ob(key + ':never-breaks', wrap_ok, rule=rule, expected='the try_fold callable always continues (returns Ok / Some / Continue of the step)', found=S.showval(lam_v)[:160], where=where):
+            return False
+        lam_v = lam_v['f'][0]
+    res = flat(cv.val(lam_v))
     names = [t_[1] for t_ in S.terms if t_[0] == 'v' and (t_[1].startswith('acc') or t_[1].startswith('item'))]
     acc_names = sorted([x for x in set(names) if x.startswith('acc')], key=lambda s_: names.index(s_))
     item_names = sorted([x for x in set(names) if x.startswith('item')], key=lambda s_: names.index(s_))
@@ -1446,6 +1457,25 @@ def check_fold(run, S, name, init_exp, step, rule='K7 fold pattern', what='sum',
     rv = leaf['v']
     rt = flat(cv.val(rv))
     ft = e['ret']
+    if is_try:
+        # every leaf of the result is a projection, in field order, of the payload of the try_fold result
+        call_atom = _single_atom(cv.el(ft))
+        paths = []
+        okp = call_atom is not None
+        for x in rt:
+            a_ = _single_atom(el_of(x)) if isinstance(x, (El, int)) else None
+            if a_ is None:
+                okp = False
+                break
+            base, path = proj_path(a_)
+            kd = A.CTX.kind[base]
+            if not (kd[0] == 'fn' and kd[1] == 'variant' and _single_atom(kd[2][0]) == call_atom and path and path[0] == 0):
+                okp = False
+                break
+            paths.append(path)
+        okp = okp and paths == sorted(paths) and len(set(paths)) == len(paths)
+        run.ob(key + ':result', okp, rule=rule, expected='returns the payload of the try_fold result unchanged', found=S.showval(rv)[:120], where=where)
+        return True
     want = flat(cv.val(_shape_like(S, rv, ft)))
     run.ob(key + ':result', len(rt) == len(want) and all(A.eq(el_of(x), el_of(y)) for x, y in zip(rt, want)), rule=rule, expected='returns the fold result unchanged', found=S.showval(rv)[:120], where=where)
     return True
